@@ -26,6 +26,17 @@ def presence_tested_on_raw_meta(ck: Checker, rule: str) -> None:
             v = getattr(a, "value", None)
             if names & params and v is not None and any(isinstance(c, ast.Call) and isinstance(c.func, ast.Name) and c.func.id == keyp for c in ast.walk(v)):
                 bad.append(a)
+    # ... nor is a local that holds a side's comparison key tested for None (the same slip behind a shared helper)
+    keyed = set()
+    for a in walk_own(fn.node):
+        if isinstance(a, (ast.Assign, ast.AnnAssign)) and getattr(a, "value", None) is not None:
+            tgts = a.targets if isinstance(a, ast.Assign) else [a.target]
+            if all(isinstance(t, ast.Name) for t in tgts) and isinstance(a.value, ast.Call) and isinstance(a.value.func, ast.Name) and a.value.func.id == keyp:
+                keyed |= {t.id for t in tgts}
+    for e in walk_own(fn.node):
+        if isinstance(e, ast.Compare) and len(e.ops) == 1 and isinstance(e.ops[0], (ast.Is, ast.IsNot)) and isinstance(e.comparators[0], ast.Constant) and e.comparators[0].value is None \
+                and isinstance(e.left, ast.Name) and e.left.id in keyed - params:
+            bad.append(e)
     # ... and the None tests are on the parameters
     g = ck.cfg(fn)
     n_tests = 0
